@@ -234,8 +234,11 @@ class LibModel:
         if isinstance(o, D):
             if o.ref == recv.ref:
                 return [(st, NONE)]      # d.update(d) changes nothing
-            st.dicts[recv.ref] = st.dicts[recv.ref].merge(st.dicts[o.ref])
+            old = st.dicts[recv.ref]
+            st.dicts[recv.ref] = old.merge(st.dicts[o.ref])
             st.log_mut(recv.ref)
+            if hasattr(self, 'on_dict_mutation'):
+                self.on_dict_mutation(eng, st, recv.ref, old, st.dicts[recv.ref], node)
             return [(st, NONE)]
         if isinstance(o, C) and o.v is None:
             raise OutOfSubset("dict.update(None) raises TypeError", node)
